@@ -18,13 +18,13 @@ TECHNIQUE = 'runtime monitoring: paired-run differential monitor on the real pre
 LEVEL = "exploration"
 CASE_TIMEOUT = 3000
 RULE = ("one fitted model per case (every family/profile; baselines of 365 days covering every calendar month and weekday, asserted by the generator) x "
-        "reporting spans (week, month incl. a DST change, partial year, year) x alterations of the observed column {x0.1, x10, shuffled, 30% NaN, "
+        "reporting spans (week, month incl. a DST change, partial year, year) x alterations of the observed column {x0.1, x10, shuffled, 30% NaN, runs of NaN, "
         "all NaN, absent, zeros, negative}.  distinct_nontrivial = distinct (family, span, alteration) pairs whose two runs share at least one predicted row.")
 ASSUMPTIONS = ["values compared on the intersection of rows where both runs produced a finite prediction; which rows get a prediction is compared too: everywhere for the "
                "hourly families, on days with usable usage in both runs for the daily family (a day without usage gets no prediction: C07), not for billing",
                "billing: the observed column is altered on the billing reads; the same read calendar is kept"]
 REQUIRED_REACH = {"pair.compared": 60, "pair.rows": 5000, "baseline.covers_all_months_and_weekdays": 6, "alteration.absent": 6, "alteration.all_nan": 6,
-                  "span.with_dst_change": 4, "span.with_weather_gaps": 4, "pair.presence_compared": 40, "pair.presence_rows": 5000}
+                  "span.with_dst_change": 4, "span.with_weather_gaps": 4, "pair.presence_compared": 40, "pair.presence_rows": 5000, "span.daily_from_series_hourly_temperature": 2}
 
 VIOL = []
 
@@ -51,6 +51,11 @@ def alter(rng, df, how, billing=False):
     elif how == "nan30":
         idx = np.flatnonzero(have)
         o[rng.choice(idx, size=max(1, int(0.3 * len(idx))), replace=False)] = np.nan
+    elif how == "nan_runs":
+        n = len(o)
+        for _ in range(3):
+            a = int(rng.integers(1, max(2, n - 3)))
+            o[a:a + int(rng.integers(2, max(3, min(15, n // 4))))] = np.nan
     elif how == "all_nan":
         o[:] = np.nan
     elif how == "zeros":
@@ -62,7 +67,7 @@ def alter(rng, df, how, billing=False):
     return d
 
 
-ALTS = ["x0.1", "x10", "shuffled", "nan30", "all_nan", "absent", "zeros", "negative"]
+ALTS = ["x0.1", "x10", "shuffled", "nan30", "nan_runs", "all_nan", "absent", "zeros", "negative"]
 COLS = {"daily": ["predicted", "predicted_unc", "heating_load", "cooling_load", "model_split", "model_type"],
         "billing": ["predicted", "predicted_unc", "heating_load", "cooling_load", "model_split", "model_type"],
         "hourly": ["predicted"], "caltrack": ["predicted"]}
@@ -86,8 +91,24 @@ def run_case(spec):
     if spec["tier"] == "quick":
         spans = spans[:3] if fam.kind != "caltrack" else spans[1:3]
     n_pairs = 0
+
+    def series_entry(frame):
+        """daily family, second entry point: daily meter series + HOURLY temperature feed through from_series"""
+        import opendsm.eemeter as em
+        idx = frame.index
+        hidx = pd.date_range(idx[0].tz_convert("UTC"), (idx[-1] + pd.Timedelta(days=1)).tz_convert("UTC"), freq="h", inclusive="left").tz_convert(idx.tz)
+        pos = np.searchsorted(idx.asi8 if idx.unit == "ns" else idx.as_unit("ns").asi8, hidx.asi8 if hidx.unit == "ns" else hidx.as_unit("ns").asi8, side="right") - 1
+        hT = frame["temperature"].to_numpy(dtype=float)[pos] + np.round(3 * np.sin(2 * np.pi * (hidx.hour.values - 15) / 24), 2)
+        temp = pd.Series(hT, index=hidx, name="temperature")
+        meter = frame["observed"].rename("observed") if "observed" in frame.columns else None
+        return em.DailyReportingData.from_series(meter, temp, is_electricity_data=True)
+    if fam.kind == "daily":
+        spans = spans + [("partial/from_series-hourly-temperature", "2019-01-15" if tz != "Australia/Sydney" else "2019-07-15", 250)]
     for sname, start, days in spans:
+        make_rd = series_entry if "from_series" in sname else fam.reporting_data
         base = fam.reporting_frame(rng, tz, start, days, with_observed=True)
+        if "from_series" in sname:
+            I.reach("span.daily_from_series_hourly_temperature")
         if fam.kind == "billing":
             # billing reporting data: daily temperature + reads at period starts
             reads = np.arange(0, days, 30)
@@ -107,7 +128,7 @@ def run_case(spec):
         if sname == "month-with-dst" and tz not in ("UTC", "Asia/Kolkata"):
             I.reach("span.with_dst_change")
         try:
-            ref = fam.predict(copy.deepcopy(m), fam.reporting_data(base))
+            ref = fam.predict(copy.deepcopy(m), make_rd(base))
         except Exception as e:
             add("predict-raised:%s:%s" % (fam.kind, type(e).__name__), "predict on the unaltered %s set raised %s: %s" % (sname, type(e).__name__, str(e)[:160]), family=spec["family"])
             continue
@@ -115,7 +136,7 @@ def run_case(spec):
             alt = alter(rng, base, how)
             I.reach("alteration." + ("absent" if how == "absent" else "all_nan" if how == "all_nan" else "other"))
             try:
-                alt_data = fam.reporting_data(alt)
+                alt_data = make_rd(alt)
             except Exception:
                 I.reach("pair.altered_set_rejected_by_the_data_class")      # the data class's business (C10), no prediction to compare
                 continue
